@@ -326,3 +326,27 @@ def run_select_attr(dom, attr, cond):
     got = list(q.evaluate())
     want = [getattr(o, attr) for o in dom if cond is None or holds(cond, {0: o})]
     return got, want, q
+
+
+# ------------------------------------------------------------------ predicate form (C13) and the registry (C14)
+from entity_query_language import From  # noqa: E402
+
+
+@symbol
+@dataclass(eq=False)
+class PBase:
+    name: str
+    size: int = 1
+
+
+@symbol
+@dataclass(eq=False)
+class PSub(PBase):
+    extra: int = 0
+
+
+@symbol
+@dataclass(eq=False)
+class POther:
+    name: str
+    size: int = 1
